@@ -12,7 +12,7 @@ for pid in sorted(R.CLAIMED):
     if hs is None and hasattr(m, "harnesses"):
         hs = m.harnesses()
     q = sum(1 for h in hs or [] if "quick" in h.tiers)
-    t = len(hs or [])
+    t = sum(1 for h in hs or [] if "thorough" in h.tiers)
     mm = "mirsmt/%s.py" % pid.lower() if os.path.exists(os.path.join(HERE, "vlib", "mirsmt", pid.lower() + ".py")) else ""
     if pid == "C21":
         mm = "vlib/static_atoms.py (z3)"
